@@ -8,7 +8,7 @@ PROP = 'C04'
 def make_cases(tier, profile):
     cases = []
     base = dict(sym_caps=False, sym_max_joins=False, sym_topic=False, sym_key=False, sym_limit=False, sym_lists=False, sym_modes=False, sym_away=False,
-                plain_chans=['&y'] if tier == 'quick' else [], nicks=['alice', 'bob', 'carol'])
+                plain_chans=['&y'], nicks=['alice', 'bob', 'carol'])
     sp = ['mem_alice_#x', 'mem_bob_#x', 'mem_carol_#x']
     for l in ['PART #x', 'PART #x :bye for now', 'PART #x,&y', 'PART #nochan', 'PART &y,#x :x']:
         cases.append(dict(name=l, line=l, judges=['no_panic', 'inv', 'part'], spec=base, split=sp))
@@ -21,10 +21,22 @@ def make_cases(tier, profile):
     # the three reader views agree with the relation
     vspec = dict(base, sym_modes=True, sym_caps=True)
     from mirsym.world import RANKS
-    fixed_ranks = {f'{r}_{n}_#x': False for n in (['alice', 'carol'] if tier == 'quick' else ['alice']) for r in RANKS}
+    fixed_ranks = {f'{r}_{n}_#x': False for n in ['alice', 'carol'] for r in RANKS}
     fixed_ranks.update({f'umode_{m}_{n}': False for n in ['alice', 'bob', 'carol'] for m in ('oper', 'local_oper', 'registered', 'wallops')})
     for l in ['NAMES #x', 'NAMES #x,&y', 'WHO #x', 'WHOIS bob', 'WHOIS alice', 'NAMES', 'WHO &y']:
         cases.append(dict(name=l, line=l, judges=['no_panic', 'view_names', 'view_who', 'view_whois'], spec=vspec, split=sp + ['founder_bob_#x', 'protected_bob_#x'], partial0=fixed_ranks))
+    if True:
+        # users on several channels of which the observer shares only some: both channels with symbolic membership (ranks and flags of &y fixed;
+        # thorough: operator and voice of bob on #x symbolic as well, more query forms)
+        from mirsym.world import CHFLAGS
+        vn = vspec['nicks']
+        two = dict(fixed_ranks); two.update({f'{r}_{n}_&y': False for n in vn for r in RANKS}); two.update({'preconf_&y': False, 'preconf_#x': False})
+        two.update({f'{f}_&y': False for f in CHFLAGS})
+        if tier == 'quick': two.update({f'{r}_bob_#x': False for r in RANKS})
+        else: two.update({f'{r}_bob_#x': False for r in RANKS if r not in ('operator', 'voice')})
+        for l in (['WHOIS bob', 'WHO bob', 'NAMES &y,#x'] if tier == 'quick' else ['WHOIS bob', 'WHO bob', 'NAMES &y,#x', 'WHOIS b*', 'WHO *', 'NAMES', 'WHO &y', 'WHOIS bob,carol']):
+            cases.append(dict(name=l + ' [two symbolic channels]', line=l, judges=['no_panic', 'view_names', 'view_who', 'view_whois'], spec=dict(vspec, plain_chans=[]),
+                              split=['mem_alice_#x', 'mem_bob_#x', 'mem_alice_&y', 'mem_bob_&y'], partial0=two))
     return cases
 
 BOUNDS = dict(universe='3 users, 2 channels; memberships and all rank flags symbolic (quick: on #x; &y carries membership of the actor only); for the views also +i, +s and multi-prefix (quick: rank flags of one member symbolic, the others plain members)',
